@@ -106,6 +106,7 @@ def f1(e: Engine, rep: Report):
                         'the client' % f.qname, loc=f.loc(n))
     for cq in (CLIENT, LMTP):
         c = e.p.cls(cq)
+        drainers = common.owner_closure(e, cq, {'_flush_pipeline'})
         for mname, m in sorted(c.methods.items()):
             parents = {}
             for x in ast.walk(m.node):
@@ -143,7 +144,7 @@ def f1(e: Engine, rep: Report):
                                 for s in defs)
                         elif isinstance(a, ast.Call):
                             fresh = ast.unparse(a.func) == 'Reply'
-                        rep.check(fresh and mname != '_flush_pipeline',
+                        rep.check(fresh and mname not in drainers,
                                   'F1', m.qname, 'append of a fresh Reply',
                                   'something other than a newly created '
                                   'Reply is queued (a shared / reused '
@@ -151,7 +152,7 @@ def f1(e: Engine, rep: Report):
                                   loc=m.loc(n), reason='Reply(...) created '
                                   'in this method')
                     elif op == 'pop':
-                        ok = mname == '_flush_pipeline' and gp.args and \
+                        ok = mname in drainers and gp.args and \
                             isinstance(gp.args[0], ast.Constant) and \
                             gp.args[0].value == 0
                         rep.check(ok, 'F1', m.qname, 'pop(0) in the drain '
@@ -163,6 +164,12 @@ def f1(e: Engine, rep: Report):
                         rep.bad('F1', m.qname, 'reply_queue.%s' % op,
                                 'unexpected operation on the owed-reply '
                                 'FIFO', loc=m.loc(n))
+                elif isinstance(par, (ast.UnaryOp, ast.If, ast.While,
+                                      ast.BoolOp, ast.Compare, ast.IfExp)) \
+                        or (isinstance(par, ast.Call) and
+                            ast.unparse(par.func) in ('len', 'bool')):
+                    rep.ok('F1', m.qname, 'emptiness test of reply_queue',
+                           reason='read-only use', loc=m.loc(n))
                 else:
                     rep.bad('F1', m.qname, 'reply_queue escapes',
                             'the FIFO object is handed out / used in an '
@@ -360,7 +367,7 @@ def lmtp_data(e, rep, g, where, apps, wires):
 
 def f4(e: Engine, rep: Report):
     ctx = e.method_ctx(CLIENT, '_flush_pipeline')
-    g = e.build(ctx)
+    g = e.build(ctx, inline=e.inline_same_self(), max_depth=3)
     where = ctx.func.qname
     rep.functions.add(where)
     pops = [n for n in g.nodes if n.kind == 'call' and
@@ -384,16 +391,34 @@ def f4(e: Engine, rep: Report):
                   'replies are awaited before the buffered commands were '
                   'flushed to the socket: the client blocks',
                   loc=n.loc(), reason='flush_send dominates the drain loop')
-    popvar = None
+    popvars = set()
     for s in g.of_kind('stmt'):
-        if isinstance(s.ast, ast.Assign) and s.ast.value is pops[0].ast:
-            popvar = path_of(s.ast.targets[0], s.frame)
+        if isinstance(s.ast, ast.Assign) and \
+                isinstance(s.ast.targets[0], ast.Name) and any(
+                    v is pops[0].ast or any(v is p.ast for p in pops)
+                    for v, _ in common.values_of(g, s.ast.value, s.frame)):
+            popvars.add(path_of(s.ast.targets[0], s.frame))
+    nul = common.Nullness(g)
+
+    def pstep(n, label, st):
+        popped, ns = st
+        ns2 = nul.step(n, label, ns)
+        if ns2 == 'infeasible':
+            return None
+        if isinstance(label, tuple):
+            return (popped, ns2)
+        if n in pops:
+            popped = True
+        if n in recvs:
+            popped = False
+        return (popped, ns2)
     for n in recvs:
         rep.evaluations += 1
-        st = before.get(n.id) or ()
-        same = popvar is not None and \
-            path_of(n.ast.func.value, n.frame) == popvar
-        rep.check('pop' in st and same, 'F4', where,
+        same = path_of(n.ast.func.value, n.frame) in popvars
+        pth = dataflow.typestate_witness(
+            g, (False, frozenset()), pstep,
+            lambda x, st: x is n and not st[0])
+        rep.check(pth is None and same, 'F4', where,
                   'exactly one read per popped reply',
                   'a reply is read without a freshly popped Reply object '
                   '(reads past what is owed, or fills the wrong object)',
@@ -409,6 +434,35 @@ def f4(e: Engine, rep: Report):
             g, h, lambda x: x in recvs or x in pops,
             edge_ok=lambda a, l, s: not isinstance(l, tuple))
         ok = pth is None
+    if not hs:
+        # written as a test instead: the pop is reached only where the queue
+        # was found non-empty, and the empty case leads to no further read
+        fx = e.facts(g)
+        guarded = all(any(
+            (p and k == 'self.reply_queue') or
+            (p and k.startswith('0 < len(self.reply_queue)'))
+            for p, k in (fx.at(pp) or ())) for pp in pops)
+
+        def estep(n, label, st):
+            popped, ns = st
+            ns2 = nul.step(n, label, ns)
+            if ns2 == 'infeasible':
+                return None
+            return (popped, ns2)
+        # from a `return None` of the emptiness arm no recv is reachable
+        # under nullness pruning
+        empties = [r for r in g.of_kind('stmt')
+                   if isinstance(r.ast, ast.Return) and
+                   r.frame is not g.entry.frame and (
+                       r.ast.value is None or (
+                           isinstance(r.ast.value, ast.Constant) and
+                           r.ast.value.value is None))]
+        leak = None
+        for r in empties:
+            leak = leak or dataflow.typestate_witness(
+                g, (False, frozenset()), estep,
+                lambda x, st: x in recvs, start=r)
+        ok = guarded and leak is None
     rep.check(ok, 'F4', where, 'an empty queue ends the drain',
               'after the FIFO is empty the loop keeps reading from the '
               'socket: the client reads past the last reply it is owed '
@@ -438,7 +492,9 @@ def f5(e: Engine, rep: Report):
     for meth, code in (('send_data', None), ('send_empty_data', None),
                        ('rset', None), ('lhlo', '250')):
         ctx = e.method_ctx(LMTP, meth)
-        g = e.build(ctx, raises=lambda b, n, r: set())
+        g = e.build(ctx, raises=lambda b, n, r: set(),
+                    inline=e.inline_same_self(deny=['_flush_pipeline']),
+                    max_depth=3)
         where = ctx.func.qname
         rep.functions.add(where)
         clears = [n for n in g.of_kind('stmt')
